@@ -115,6 +115,7 @@ def gen_let(w, r, cfg):
     how = r.choice(['let', 'let', 'direct', 'fmeth'])
     return dict(op='let', kind=kind, how=how, a=_ri(r), pairs=pairs,
                 keep=r.random() < cfg['keep_rate'],
+                cm=[r.choice([0, 0, 0, 1, 2]) for _ in pairs] if (kind == 'fn' and r.random() < 0.4) else None,
                 reuse=_ri(r) if r.random() < 0.3 else None)
 
 
@@ -274,6 +275,9 @@ def next_instruction(w, r, cfg):
     if cfg.get('m1_rate') and len(w.mgrs) > 1 and r.random() < cfg['m1_rate']:
         # work in the second manager: it needs variables and handles first
         nd = len(w.mgrs[1].raw.vars)
+        if nd == 0 and r.random() < 0.3:
+            # a manager without any variable still has the two constants
+            return dict(op='const', v=r.randrange(2), m=1)
         if nd == 0 or (nd < w.nv and r.random() < 0.25):
             return dict(op='declare', k=_ri(r, w.nv), how=r.randrange(2), m=1)
         if not w.slots_of(1) or r.random() < 0.25:
